@@ -746,6 +746,63 @@ theorem parseTop_complete {t : Bool} {w : Wire}
   simp only [List.append_nil, parseFirst] at h
   simp only [parseTop, h]
 
+/-! ### D'. the limits gate is antitone in the depth -/
+
+mutual
+/-- a tree within the parser's limits when met at depth `d` is within them at any smaller depth -/
+theorem Wire.inLimits_anti (t : Bool) : ∀ (w : Wire) (d d' : Nat), d' ≤ d →
+    w.inLimits t d = true → w.inLimits t d' = true
+  | .uint .., _, _, _, _ => by simp [Wire.inLimits]
+  | .nint .., _, _, _, _ => by simp [Wire.inLimits]
+  | .bstr .., _, _, _, _ => by simp [Wire.inLimits]
+  | .tstr .., _, _, _, _ => by simp [Wire.inLimits]
+  | .prim .., _, _, _, _ => by simp [Wire.inLimits]
+  | .arr _ xs, d, d', hle, h => by
+    simp only [Wire.inLimits, Bool.and_eq_true, decide_eq_true_eq] at h ⊢
+    exact ⟨⟨by omega, h.1.2⟩, Wire.inLimitsList_anti t xs (d + 1) (d' + 1) (by omega) h.2⟩
+  | .map _ kvs, d, d', hle, h => by
+    simp only [Wire.inLimits, Bool.and_eq_true, decide_eq_true_eq] at h ⊢
+    exact ⟨⟨by omega, h.1.2⟩, Wire.inLimitsPairs_anti t kvs (d + 1) (d' + 1) (by omega) h.2⟩
+  | .tag _ _ x, d, d', hle, h => by
+    simp only [Wire.inLimits, Bool.and_eq_true, decide_eq_true_eq] at h ⊢
+    cases hx : x.isTag
+    · simp only [hx, Bool.false_eq_true, if_false] at h ⊢
+      exact ⟨h.1, by omega, Wire.inLimits_anti t x d d' hle h.2.2⟩
+    · simp only [hx, if_true] at h ⊢
+      exact ⟨h.1, by omega, Wire.inLimits_anti t x (d + 1) (d' + 1) (by omega) h.2.2⟩
+theorem Wire.inLimitsList_anti (t : Bool) : ∀ (xs : List Wire) (d d' : Nat), d' ≤ d →
+    Wire.inLimitsList t d xs = true → Wire.inLimitsList t d' xs = true
+  | [], _, _, _, _ => by simp [Wire.inLimitsList]
+  | x :: xs, d, d', hle, h => by
+    simp only [Wire.inLimitsList, Bool.and_eq_true] at h ⊢
+    exact ⟨Wire.inLimits_anti t x d d' hle h.1, Wire.inLimitsList_anti t xs d d' hle h.2⟩
+theorem Wire.inLimitsPairs_anti (t : Bool) : ∀ (kvs : List (Wire × Wire)) (d d' : Nat), d' ≤ d →
+    Wire.inLimitsPairs t d kvs = true → Wire.inLimitsPairs t d' kvs = true
+  | [], _, _, _, _ => by simp [Wire.inLimitsPairs]
+  | (k, v) :: r, d, d', hle, h => by
+    simp only [Wire.inLimitsPairs, Bool.and_eq_true] at h ⊢
+    exact ⟨⟨Wire.inLimits_anti t k d d' hle h.1.1, Wire.inLimits_anti t v d d' hle h.1.2⟩,
+      Wire.inLimitsPairs_anti t r d d' hle h.2⟩
+end
+
+/-- the tags-forbidden well-formedness pass (`decModeWithTagsForbidden.Wellformed`) accepts the
+    bytes of every well-formed tree that is within the parser's limits from depth 0 -/
+theorem wellformedNoTags_bytes {w : Wire}
+    (hwf : w.wf = true) (hl : w.inLimits false 0 = true) : wellformedNoTags w.bytes = true := by
+  simp only [wellformedNoTags, parseTop_complete hwf hl, Option.isSome_some]
+
+/-- the same for a tree known to be within the limits at some depth `d` (e.g. a bucket that was
+    shown to fit inside an envelope): the stand-alone pass starts at depth 0 -/
+theorem wellformedNoTags_bytes_at {w : Wire} {d : Nat}
+    (hwf : w.wf = true) (hl : w.inLimits false d = true) : wellformedNoTags w.bytes = true :=
+  wellformedNoTags_bytes hwf (Wire.inLimits_anti false w d 0 (Nat.zero_le d) hl)
+
+/-- what the pass accepting some bytes means: they are the bytes of one tag-free well-formed
+    tree within the limits -/
+theorem wellformedNoTags_iff {bs : Bytes} :
+    wellformedNoTags bs = true ↔ ∃ w, parseTop false bs = some w := by
+  simp only [wellformedNoTags, Option.isSome_iff_exists]
+
 /-! ### E. uniqueness -/
 
 theorem parseTop_bytes_inj {t : Bool} {bs bs' : Bytes} {w : Wire}
